@@ -24,6 +24,7 @@ type rewrite struct {
 
 var leadingComments = []string{"<!-- a comment -->\n", "\n\n  \n", "<!-- c1 --><!-- c2 -->\n\n", "\r\n<!-- multi\nline\ncomment -->\r\n", "  <!-- x --> \t\n",
 	// punctuation a scanner could mistake for markup: unpaired quotes, angle brackets, ampersands
+	"<!--> note -->\n", "<!---> note -->", "<!--<mjml>-->", "<!---->", "<!-- - -->\n",
 	"<!-- generated file, don't edit -->\n", "<!-- 15\" banner -->\n", "<!-- a & b < c > d -->\n", "<!-- it's \"x\" & <mj-text> -->\n"}
 
 // what may stand in front of the root element without being part of the document: a byte-order mark, an XML declaration, a
